@@ -77,7 +77,15 @@ class Check:
                        f"{what}: found {count}, expected exactly {expected}", config=config, nontrivial=False, count=count, expected=expected)
 
     def guard(self, rule, fn, *a, **kw):
-        """run a rule function; a missing anchor or an internal error is a failed obligation"""
+        """run a rule function; a missing anchor or an internal error is a failed obligation.  The same rule function
+        on the same facts runs once per check, however many bundles name it"""
+        import re as _re
+        key = (getattr(fn, "__module__", ""), getattr(fn, "__qualname__", repr(fn)), id(a[1]) if len(a) > 1 else None,
+               tuple(repr(x) for x in a[2:] if not (isinstance(x, str) and _re.fullmatch(r"C\d\d-R\d+", x))), tuple(sorted((k, repr(v)) for k, v in kw.items())))
+        done = self.__dict__.setdefault("_guard_done", set())
+        if key in done:
+            return None
+        done.add(key)
         try:
             return fn(*a, **kw)
         except AnchorMissing as e:
